@@ -188,6 +188,21 @@ FAMILIES = {
         runs={"quick": [dict(mode="bfs", max_nodes=5, min_nodes=5, split=4), dict(mode="sim", max_nodes=5, min_nodes=4, num=6000, depth=18, procs=6)],
               "thorough": [dict(mode="bfs", max_nodes=5, min_nodes=5, split=4), dict(mode="sim", max_nodes=6, min_nodes=4, num=120000, depth=20, procs=12)]},
         shards=[["map"]], shard_defs={"map": "SK_map"}),
+    "deepsections": dict(
+        consts=dict(Raises="NoRaises", Kinds="FDS_Kinds", Paths="FDS_Paths", Consts="None0", Tmpls="None0",
+                    Fns="None0", Bodies="FDS_Bodies", DispVals="NoSeq", Preds="None0", Presets="FDS_Presets",
+                    MapPaths="None0", Leaves="FDS_Leaves", PlainOpts="TRUE"),
+        sharing=False,
+        runs={"quick": [dict(mode="bfs", max_nodes=4)], "thorough": [dict(mode="bfs", max_nodes=5)]},
+        shards=[["with"], ["cached"], ["ds"], ["dsof"]],
+        shard_defs={"with": "SK_with", "cached": "SK_cached", "ds": "SK_ds", "dsof": "SK_dsof"}),
+    "caseseq": dict(
+        consts=dict(Raises="NoRaises", Kinds="FCS_Kinds", Paths="FCS_Paths", Consts="FCQ_Consts", Tmpls="None0",
+                    Fns="None0", Bodies="None0", DispVals="NoSeq", Preds="FCQ_Preds", Presets="None0",
+                    MapPaths="None0", Leaves="FCQ_Leaves", PlainOpts="TRUE", KindSeq="FCQ_Seq"),
+        sharing=True,
+        runs={"quick": [dict(mode="bfs", max_nodes=6, min_nodes=6, split=4)], "thorough": [dict(mode="bfs", max_nodes=6, min_nodes=6, split=4)]},
+        shards=[["case"]], shard_defs={"case": "SK_case"}),
     "illsorted": dict(
         consts=dict(Raises="NoRaises", Kinds="FI_Kinds", Paths="FI_Paths", Consts="FI_Consts", Tmpls="None0",
                     Fns="None0", Bodies="None0", DispVals="NoSeq", Preds="None0", Presets="None0",
